@@ -267,6 +267,12 @@ class StmtMixin:
         return new, item
 
     def list_insert(self, lst: V, i, item: V):
+        if isinstance(item, V) and isinstance(item.ty, TOpt) and not isinstance(lst.ty.elem, TOpt) and lst.ty.elem != TAny:
+            # an Optional value stored into a list whose element type is not Optional: supported only where the value is
+            # provably present on this path (otherwise the list model could not represent the None element)
+            if not self.ctx.prove_quick(z3.Not(sym.opt_is_none(item))):
+                raise Unsupported("possibly-None value inserted into %s" % lst.ty)
+            item = sym.opt_val(item)
         n = sym.list_len(lst)
         # python clamps insert positions
         i = z3.If(i < 0, z3.If(i + n < 0, I(0), i + n), z3.If(i > n, n, i))
